@@ -337,10 +337,9 @@ func referenceAsTypeOf(block *hcl.Block, rngPtr *hcl.Range, bSchema *schema.Bloc
 		ref.Description = bSchema.Body.Description
 	}
 
-	attrs, diags := block.Body.JustAttributes()
-	if diags.HasErrors() {
-		return reference.Targets{ref}
-	}
+	// diagnostics (e.g. about nested blocks) do not
+	// prevent us from reading the attributes
+	attrs, _ := block.Body.JustAttributes()
 
 	if bSchema.Address.AsTypeOf.AttributeExpr != "" {
 		typeDecl, ok := asTypeOfAttrExpr(attrs, bSchema)
